@@ -69,7 +69,11 @@ class Recorder:
         if kind == "write":
             self.vid += 1
             v = self.vid
-        res = fn(b"v%d" % v if kind == "write" else None)
+        raised = "none"
+        try:
+            res = fn(b"v%d" % v if kind == "write" else None)
+        except Exception as e:   # noqa -- healthy servers, legal keys: a raise is an outcome for the contract, not a harness failure
+            raised, res = type(e).__name__, None
         # reference placement: the hasher, asked by the harness (not by the client) for every routing key
         placed = []
         for k in keys:
@@ -95,7 +99,7 @@ class Recorder:
                 found.append([self._id(self.kid, rk), vv])
                 shapes.append(1 if isinstance(rv, tuple) and len(rv) == 2 and rv[1] is not None else 0)
         return {"e": "op", "op": op, "kind": kind, "v": v, "items": self.items(keys), "placed": placed, "sent": sent, "found": found,
-                "shapes": shapes, "withcas": op in ("gets", "gets_many", "gats")}
+                "shapes": shapes, "withcas": op in ("gets", "gets_many", "gats"), "raised": raised}
 
 
 def make_logging_hasher(log, table=None):
